@@ -366,6 +366,11 @@ let model_line (f : string list) : string =
     (match p2 (mbytes x) with
      | Ok h -> Printf.sprintf "B[%s] O[%s]" (views2_one h) (views2_one (h_to_owned h))
      | Err _ -> "REJ")
+  | ["digest"; m; x] ->
+    let x = mbytes x in
+    let d = (match m with "v1b" -> d_v1b x | "v1s" -> d_v1s x | "v2" -> d_v2 x | "auto" -> d_auto x | "tlv" -> d_tlv x
+                        | _ -> failwith "digest mode") in
+    String.concat ";" (List.map nstr d)
   | ["build"; c; ops] -> show_build (ctor_of c) (ops_of ops)
   | ["write"; pre; p] -> show_write (mbytes pre) (payload_of p)
   | ["buildparse"; c; ops] -> show_buildparse (ctor_of c) (ops_of ops)
